@@ -52,6 +52,14 @@ def gen_case(rnd, tier: str, i: Any) -> Dict[str, Any]:
                 if k > 0 and e.get("ph") == "X" and e.get("cat") in ("cpu_op", "user_annotation") and "ProfilerStep" not in e["name"] \
                         and "backward" not in e["name"] and rnd.random() < 0.12:
                     e["name"] = rnd.choice(["Event Sync barrier", "Context Sync check", "Event Synchronize", "my Event Sync", "Context Sync"[:-1]])
+        if rnd.random() < 0.35:
+            # device records that carry a stream but no correlation id (a kernel whose launch record was lost, a device-side
+            # annotation range): on a stream, yet not "device side" by the documented rule (stream >= 0 and correlation >= 0) - the host
+            # filter is the complement of the device filter, not "stream == -1" (seed C18-R)
+            for e in tr["traceEvents"]:
+                a = e.get("args") if isinstance(e, dict) else None
+                if e.get("ph") == "X" and isinstance(a, dict) and a.get("stream", -1) not in (-1, None) and "correlation" in a and rnd.random() < 0.2:
+                    del a["correlation"]
         files[f"rank{r}.json"] = tr
     return {"files": files, "app_seed": rnd.randrange(10 ** 9), "inc_last": rnd.random() < 0.5, "reuse": True,
             "stream0": rnd.random() < 0.3}
